@@ -118,6 +118,7 @@ def run_case(seed, tier, b, acc):
     acc.count('objects_identified', R['objects_identified'])
     acc.count('templated_member_or_function_calls', R.get('templated_calls', 0))
     acc.count('by_reference_arguments_identity_checked', R.get('identity_args', 0))
+    acc.count('dunder_calls', R.get('dunder_calls', 0))
     for k, n in R['skipped'].items():
         acc.count('skipped:' + k.split(' ')[0], n)
     acc.case(hashlib.sha256(out.encode()).hexdigest()[:16], R['bindings'] >= 5)
